@@ -387,6 +387,42 @@ theorem removeExisting_spec [DecidableEq α] {h : Hashlin α} (iv : Inv h) (n : 
     · have hne : n ≠ x := fun e => hx e.symm
       simp [hx, List.count_cons, hne] at this ⊢; omega
 
+theorem sumB_length_pos_of_mem {β : Type} (x : β) (b : Nat → List β) (n i : Nat) (hi : i < n) (hx : x ∈ b i) :
+    0 < sumB List.length b n := by
+  induction n with
+  | zero => omega
+  | succ n ih =>
+    simp only [sumB]
+    by_cases hin : i = n
+    · subst hin
+      have : 0 < (b i).length := List.length_pos_of_mem hx
+      omega
+    · have := ih (by omega)
+      omega
+
+/-- `--hashlin->count` in `tommy_hashlin_remove_existing` does not wrap: a node is stored -/
+theorem removeExisting_count [DecidableEq α] {h : Hashlin α} (iv : Inv h) (n : HNode α) (hm : h.Mem n) :
+    0 < h.count ∧ (h.removeExisting n).count + 1 = h.count := by
+  have w := iv.toWf
+  obtain ⟨i, hi, hx⟩ := hm
+  have hpos : 0 < h.count := by rw [iv.count_eq]; exact sumB_length_pos_of_mem n _ _ i hi hx
+  have hp := bucketPos_eq_index w.num n.key
+  have hlt := index_lt_valid w.num n.key
+  let h0 : Hashlin α :=
+    { h with bucket := upd h.bucket (h.bucketPos n.key) ((h.bucket (h.bucketPos n.key)).erase n),
+             count := h.count - 1 }
+  have w0 : Wf h0 := by
+    apply wf_upd_bucket w
+    intro m hm'
+    have : m ∈ h.bucket (h.bucketPos n.key) := List.mem_of_mem_erase hm'
+    rw [hp]; exact w.filed _ hlt m (by rw [← hp]; exact this)
+  obtain ⟨_, c1, _⟩ := shrinkStep_keeps h0 w0
+  have e : h.removeExisting n = shrinkStep h0 := rfl
+  refine ⟨hpos, ?_⟩
+  rw [e, c1]
+  show h.count - 1 + 1 = h.count
+  omega
+
 /-- the initial table satisfies the invariant and is empty -/
 theorem init_inv : Inv (init : Hashlin α) := by
   refine ⟨⟨Nat.le_refl _, by simp [init, stable, hashlinBit], rfl, rfl, Or.inl ⟨rfl, rfl, rfl⟩, ?_⟩, ?_⟩
